@@ -628,14 +628,10 @@ Setup()
   W = new World{};
   GH->baseline_blocks = vs::LiveBlocksTotal();
   W->mgr = new EpochManager{};
-  for (int i = 0; i < PROG.prefix; ++i) W->mgr->ForwardGlobalEpoch();
   bool two = false;
   for (auto &t : PROG.th)
     for (auto &o : t.ops) two |= (o.mn == 'T');
-  if (two) {
-    W->mgr2 = new EpochManager{};
-    for (int i = 0; i < 300; ++i) W->mgr2->ForwardGlobalEpoch();
-  }
+  if (two) W->mgr2 = new EpochManager{};
 }
 
 void
@@ -747,12 +743,18 @@ MakeScenario()
   vs::Scenario s;
   s.nthreads = static_cast<int>(PROG.th.size());
   s.setup = Setup;
+  s.prologue = [] {
+    // sequential prefix: places the concurrent part relative to a 256-epoch node boundary
+    for (int i = 0; i < PROG.prefix; ++i) W->mgr->ForwardGlobalEpoch();
+    if (W->mgr2 != nullptr)
+      for (int i = 0; i < 300; ++i) W->mgr2->ForwardGlobalEpoch();
+  };
   s.body = Body;
   s.teardown = Teardown;
   s.digest = Digest;
   s.outcome = Outcome;
   s.uaf_props = UafProps;
-  s.deadlock_props = "C14";  // only GetThreadID can wait in these scenarios
+  s.deadlock_props = "C14,C16";  // only GetThreadID can wait; a coordinator stuck in it can never advance the epoch
   s.name_of = [](const void *a) -> std::string {
     if (!W || !W->mgr) return "";
     if (a == &W->mgr->global_epoch_) return "global_epoch";
